@@ -13,11 +13,12 @@ from harness.common import exc_name
 
 PID = "C16"
 TITLE = "FillRequest processes the flow in consecutive blocks, however it is driven"
-LEAN_MODULES = ["LenaModel.Props.C16", "LenaModel.Props.C16X", "LenaModel.Props.C16P"]
+LEAN_MODULES = ["LenaModel.Props.C16", "LenaModel.Props.C16X", "LenaModel.Props.C16P", "LenaModel.Props.C16S"]
 LEAN_SOURCES = ["LenaModel/Model/C16.lean", "LenaModel/Model/C16Spec.lean", "LenaModel/Model/C16X.lean",
-                "LenaModel/Model/C16P.lean", "LenaModel/Lemmas/C16.lean", "LenaModel/Lemmas/C16Run.lean",
+                "LenaModel/Model/C16P.lean", "LenaModel/Model/C16S.lean", "LenaModel/Lemmas/C16.lean", "LenaModel/Lemmas/C16Run.lean",
                 "LenaModel/Lemmas/C16Acc.lean", "LenaModel/Lemmas/C16Yor.lean", "LenaModel/Lemmas/C16X.lean",
-                "LenaModel/Props/C16.lean", "LenaModel/Props/C16X.lean", "LenaModel/Props/C16P.lean"]
+                "LenaModel/Props/C16.lean", "LenaModel/Props/C16X.lean", "LenaModel/Props/C16P.lean",
+                "LenaModel/Props/C16S.lean"]
 DRIVER = "drivers/C16.lean"
 # the theorems that carry the property (clauses of the statement, the proved parts `_partial` of clauses that are false
 # at full strength together with the proved negations of the full clauses, and the statements about the dimensions the
@@ -31,6 +32,12 @@ THEOREMS = [
     "Lena.C16.seq_run_blocks",
     # ... for ANY wrapped element: Run elements that do not read their whole block (notes/C16_defect_1)
     "Lena.C16.run_blocks_after_patch",
+    # "yields block by block": WHEN the results appear (events of run: values read / results yielded, Model/C16S.lean)
+    "Lena.C16.run_events_blockwise",
+    "Lena.C16.run_events_outs",
+    "Lena.C16.run_events_reads",
+    "Lena.C16.run_streams",
+    "Lena.C16.not_streams_allThenYield",
     # through fill() with request() at arbitrary points: accounted once, equal to run (yield_on_remainder off)
     "Lena.C16.schedule_independent",
     "Lena.C16.schedule_independent_init",
@@ -55,6 +62,10 @@ THEOREMS = [
 # transcriptions of one docstring), model-internal glue between definitions, closed witnesses, facts that are true by
 # construction of the model, statements about the adapter variant that keeps generator objects (not code of /repo)
 AUX_THEOREMS = [
+    # reading the whole flow first yields the same results (so run_streams is not implied by run_blocks); instance of
+    # run_streams in the form the negation is stated in
+    "Lena.C16.allThenYield_same_results",
+    "Lena.C16.streams_runFREv",
     # about `_run_run` as it was before fix dbe92ef (pinned transcription `runRunP`): the clause was false, and what held
     "Lena.C16.not_run_blocks_full",
     "Lena.C16.run_blocks_partial",
@@ -77,14 +88,15 @@ AUX_THEOREMS = [
 TRUSTED = [
     "Lean 4.33.0 kernel; axioms limited to propext, Classical.choice, Quot.sound (audited by #print axioms on every run)",
     "hand transcription of FillRequest.__init__/fill/request/reset/_run_fill_compute/_run_run (the three variants also for "
-    "a Run element that reads only part of its block), FillRequestSeq.__init__/request and the SCHEDULE of fill/request calls "
+    "a Run element that reads only part of its block; the four loops also as event streams 'value read' / 'result yielded', "
+    "Model/C16S.lean), FillRequestSeq.__init__/request and the SCHEDULE of fill/request calls "
     "that Split.run makes on one fill/request branch (not a transcription of Split.run: that is C03's, linked on the model "
     "side by LenaModel/Bridge/Split) into LenaModel/Model/C16.lean, C16X.lean, C16P.lean, validated by this correspondence "
     "check on the generated cases only (quick: every request schedule of flows up to length 6, histories up to length 3, "
     "random combinations of the other dimensions; thorough: lengths 8 / 5 and more samples; the committed evidence file is "
     "the last run, usually a quick one)",
     "the specification side of the theorems (specBlocks/chunks, emitAll over segments, runFillCompute on the filled values, "
-    "invOps, initContract, the recording element, specBlocksP) is evaluated by the driver on the same cases and compared with "
+    "invOps, initContract, the recording element, specBlocksP, specTags) is evaluated by the driver on the same cases and compared with "
     "the real code / Python references (missing fields are a harness error); not executed: the existential witness of "
     "accounted_once for an abstract element (only its recording-element instance)",
     "initContract, mkFillRequest and the Python ref_init are three readings of one docstring by the same author",
@@ -116,8 +128,28 @@ ASSUMPTIONS = [
     "transcribed loops end given that the element's methods return and results are finite lists (the hanging pre-fix fill "
     "could not even be written down in the model); evidence for the real code is the step watchdog (3 000 000 executed lines "
     "of lena code, sys.monitoring) and the wall-clock watchdog on every generated case — sampling, not proof",
-    "Split means: one fill/request branch, alone or between a Sequence sibling and a FillCompute sibling, copy_buf on or off; "
-    "the branch given as adapter, 1-tuple, FillRequestSeq, or (f, adapter, g)",
+    "Split means: one fill/request branch under test, alone or with other branches before and after it (Source, Sequence, "
+    "fill/compute, another FillRequest, branches that raise LenaStopFill and are removed by Split in the middle of the flow), "
+    "copy_buf on or off; the branch given as adapter, 1-tuple, FillRequestSeq, or (f, adapter, g); or the fill/request "
+    "branches inside an inner Split that is the only branch of the outer one (driven through Split.fill / Split.request). "
+    "The model does not contain the siblings (Bridge/Split: c16_splitFR_any_siblings): they must not matter",
+    "'run yields block by block' / 'processes the flow in consecutive blocks' / 'at most one block of buffered values or "
+    "results' is read as a statement about WHEN run yields, too (adversary candidates 4 and 9: a run that reads the whole flow "
+    "first, or keeps the results of all blocks, yields the same list, nothing before the flow ends, and never on an endless "
+    "flow): the oracle demands that when a result of block b is yielded, no more than the blocks 0..b and one further block "
+    "(look-ahead of a rewrite) have been taken from the flow; the correspondence compares the exact moment with the event "
+    "model (upper bound for a Run element under yield_on_remainder, which may yield while it reads). The flow handed to run "
+    "is an iterator that counts what is taken from it. Not applied to Split (which reads its own blocks ahead: C03)",
+    "with yield_on_remainder __init__ does not check the buffer flags: adapters created with none or both are in the scope "
+    "(generated for run, fill/request, Split and histories); they work in buffer_output resp. buffer_input mode",
+    "flows of 1050..2400 values (a thousand blocks and more, beyond Split's default block, the interpreter's recursion limit "
+    "and plausible buffer limits) are generated in both tiers, a few of each call form; longer ones are not",
+    "judged outside the statement (adversary round): candidates 1 and 2 are invalid (test-suite fails / demo fails on the "
+    "unchanged tree: FillRequestSeq driven by fill/request ignores its own bufsize/reset by design, split.py:45); mutants "
+    "that change the default Split bufsize, Cache detection, __repr__/__eq__/context handling or an unused attribute "
+    "(FillRequestSeq._reset) do not touch the statement; Split going on filling a branch after LenaStopFill (mutant "
+    "split.py:400 break->continue) concerns raising elements, about which the statement is silent — the correspondence "
+    "reports it (no oracle reference for an element that stores a value and then refuses it)",
 ]
 RULE = ("thorough, exhaustive: FillRequest.__init__ for every subset of {run,fill,request,compute,reset} x reset in "
         "{None,True,False} x buffer_input,buffer_output in {None,True,False}^2 x yield_on_remainder x bufsize in {-1,0,1,3}; "
@@ -138,13 +170,21 @@ RULE = ("thorough, exhaustive: FillRequest.__init__ for every subset of {run,fil
         "random longer ones + 3000 on the generator-keeping adapter; Split for all flows 0..8 as element and lengths "
         "0,3,5,7,8 as tuple / FillRequestSeq (1-result, yield_on_remainder off), lengths 0,5,8 as element otherwise; 15% of the Split/LenaStopFill cases. "
         "Both tiers start with: __init__ with non-bool flags / float and fractional bufsize / a non-callable run attribute; "
-        "250 (500) long flows (20..48 values, few or no requests, Split block sizes 18..1000/None); 9000 (40000) random "
+        "300 (600) long flows (20..48 values: run, few or no requests, Split block sizes 18..1000/None); 15 (45) very long "
+        "flows (1050..2400 values, a thousand blocks and more: run for every loop, one closing request, Split with "
+        "bufsize None/1500/4096; fixed combinations of call form, kind and buffer mode); Split with one other branch before or "
+        "after the branch under test (Source, Sequence, fill/compute, FillRequest, branches stopping at once / after 3 values) "
+        "x bufsize 2,3 x modes x Split bufsize 1,2,3,5,None x flows 0,4,7, and 2500 (12000) random sibling combinations "
+        "(0..2 before, 0..2 after, copy_buf, or nested in an inner Split); with yield_on_remainder and no / both buffer "
+        "flags: every request schedule of flows 0..5 (0..7) and Split around them; 9000 (40000) random "
         "combinations of: flow values from {None, 0, 7, (1, {'c': 1}), 'x', 2.5} with repetitions, result count depending on "
         "the element state (zero results for some blocks), methods named by the fill=/request=/reset_name= keywords (with "
         "decoys under the default names), float bufsize and truthy non-bool flags, results that are the element's live state "
         "(not with buffer_output under fill/request), a second flow on the same adapter / Split object, run after a "
         "fill/request history, (f, adapter, g) branches, a Sequence sibling that changes its copy of the block and a "
         "FillCompute sibling with copy_buf on/off; Run elements that read 0..3 values of their block. "
+        "Every run case hands over a counting iterator: the number of values taken when each result is yielded is compared "
+        "with the event model and bounded by the oracle. "
         "Non-trivial: at least one result yielded or an exception.")
 CASE_TIMEOUT = 5
 
@@ -411,6 +451,12 @@ def make_adapter(case):
     return cls(el, **_kw(case))
 
 
+def _works_bi(case):
+    """the adapter buffers input (self._buffer_input = bool(buffer_input)): flags 'bi' and 'both'; with 'bo' and with no
+    flag at all (allowed with yield_on_remainder) it buffers output"""
+    return case.get("buf", "bi") in ("bi", "both")
+
+
 def _ops_of(case):
     """[x | None]: None = request; bit j of mask: a request before fill j; a closing request always."""
     ops, flow = [], flow_codes(case)
@@ -578,7 +624,7 @@ def run_impl(case):
     return res
 
 
-_RESULT_LIMIT = 20000
+_RESULT_LIMIT = 60000
 
 
 def _leaves(o, cap=10 ** 6):
@@ -595,6 +641,23 @@ def _leaves(o, cap=10 ** 6):
     return n
 
 
+class _Counting(object):
+    """the flow handed to run: an iterator that knows how many values have been taken from it"""
+
+    def __init__(self, values):
+        self._it, self.taken = iter(values), 0
+
+    def __iter__(self):
+        return self
+
+    def __next__(self):
+        v = next(self._it)
+        self.taken += 1
+        return v
+
+    next = __next__
+
+
 class _SibCount(object):
     """a fill/compute sibling branch of Split: counts what it is filled with"""
 
@@ -606,6 +669,79 @@ class _SibCount(object):
 
     def compute(self):
         yield ("B", self.n)
+
+
+class _SibStop(object):
+    """a sibling element that accepts `c` values and then raises LenaStopFill; results are tuples (never lists: the
+    results of the branch under test are lists)"""
+
+    def __init__(self, tag, c):
+        self.tag, self.c, self.n = tag, c, 0
+
+    def fill(self, x):
+        if self.n >= self.c:
+            import lena.core
+            raise lena.core.LenaStopFill()
+        self.n += 1
+
+    def request(self):
+        yield (self.tag, self.n)
+
+    def reset(self):
+        pass
+
+
+class _SibStopFC(object):
+    """the same as a fill/compute element"""
+
+    def __init__(self, tag, c):
+        self.tag, self.c, self.n = tag, c, 0
+
+    def fill(self, x):
+        if self.n >= self.c:
+            import lena.core
+            raise lena.core.LenaStopFill()
+        self.n += 1
+
+    def compute(self):
+        yield (self.tag, self.n)
+
+
+def _sibling(desc, cb):
+    """a sibling branch of Split from its descriptor: 'src' a Source; 'seq' a Sequence that changes its copy of the
+    values; 'fc' a FillCompute counter; 'fr2:n' another FillRequest (bufsize n, buffer_output) whose results are tuples;
+    'frstop:c' / 'fcstop:c' a FillRequest (buffer_output) / fill-compute branch that raises LenaStopFill after c values"""
+    import lena.core
+    name, _, arg = desc.partition(":")
+    if name == "src":
+        def src():
+            yield ("S", 0)
+        return lena.core.Source(src), "source"
+    if name == "seq":
+        def sib_a(x):
+            if cb and isinstance(x, tuple) and isinstance(x[1], dict):
+                x[1]["c"] = 99
+            return ("A", 0)
+        return lena.core.Sequence(sib_a), "sequence"
+    if name == "fc":
+        return _SibCount(), "fill_compute"
+    if name == "fr2":
+        return lena.core.FillRequest(_SibStop("F", 10 ** 9), bufsize=int(arg), reset=False, buffer_output=True), "fill_request"
+    if name == "frstop":
+        return lena.core.FillRequest(_SibStop("T", int(arg)), bufsize=2, reset=False, buffer_output=True), "fill_request"
+    if name == "fcstop":
+        return _SibStopFC("C", int(arg)), "fill_compute"
+    raise ValueError(desc)
+
+
+def sibx_types(case):
+    """the branch types Split must find for a form 'sibx' case"""
+    kinds = {"src": "source", "seq": "sequence", "fc": "fill_compute", "fr2": "fill_request", "frstop": "fill_request",
+             "fcstop": "fill_compute"}
+    if case.get("nest"):
+        return ["fill_request"]
+    return ([kinds[d.partition(":")[0]] for d in case.get("before", [])] + ["fill_request"]
+            + [kinds[d.partition(":")[0]] for d in case.get("after", [])])
 
 
 def _init_arg(v):
@@ -651,7 +787,12 @@ def _run_impl(case):
         return {"e": exc_name(e), "phase": "second adapter"}
     if op in ("run", "runp"):
         try:
-            res = {"r": [enc(case, r) for r in fr.run(iter(flow))]}
+            # "rt": for every result, how many values of the flow had been taken when it was yielded
+            src, rs, rt = _Counting(flow), [], []
+            for r in fr.run(src):
+                rs.append(enc(case, r))
+                rt.append(src.taken)
+            res = {"r": rs, "rt": rt, "taken": src.taken}
             if flow2 is not None:
                 # the same adapter (and element object) runs a second flow
                 res["r2"] = [enc(case, r) for r in fr.run(iter(flow2))]
@@ -738,6 +879,17 @@ def _run_impl(case):
 
             branch = fr
             branches = [lena.core.Sequence(sib_a), fr, _SibCount()]
+        elif form == "sibx":
+            # other branches before / after the branch under test: a Source, a Sequence, fill/compute and fill/request
+            # branches, some of which stop (LenaStopFill) and are removed by Split in the middle of the flow;
+            # "nest": the fill/request branches form an inner Split, which is the only branch of the outer one and is
+            # driven through Split.fill / Split.request
+            cb = bool(case.get("cb", True))
+            branch = fr
+            branches = ([_sibling(d, cb)[0] for d in case.get("before", [])] + [fr]
+                        + [_sibling(d, cb)[0] for d in case.get("after", [])])
+            if case.get("nest"):
+                branches = [lena.core.Split(branches, copy_buf=cb)]
         else:
             branch = lena.core.FillRequestSeq(fr, bufsize=1, reset=False, buffer_input=True)
         try:
@@ -888,6 +1040,15 @@ def compare(case, res, replies):
         if m["spec"] != res["r"]:
             # the right-hand side of theorem run_blocks, evaluated by the driver
             return f"impl {res['r']} vs block specification of the model {m['spec']}"
+        # when the results appear (Model/C16S.lean: the events of run; "spect": the right-hand side of run_streams).
+        # A Run element under yield_on_remainder may yield while it still reads its block: the model gives the latest moment
+        exact = not (case["kind"] == "map" and case["yor"])
+        for name, mt in (("events of the model", m["rt"]), ("rhs of run_streams", m["spect"])):
+            if len(mt) != len(res["rt"]) or any((a != b) if exact else (a > b) for a, b in zip(res["rt"], mt)):
+                return (f"values taken from the flow when each result was yielded: impl {res['rt']} vs {name} {mt}"
+                        + ("" if exact else " (upper bound)"))
+        if res["taken"] != m["nread"]:
+            return f"run took {res['taken']} values from the flow, the model reads {m['nread']}"
         if case["kind"] == "both" and m["rc"] is not True:
             return "RunConsistent fails for the test element that has run and fill/request (hypothesis of schedule_independent)"
         if case["kind"] == "frseq" and m["seqspec"] != res["r"]:
@@ -923,18 +1084,20 @@ def ref_init(case):
     return errs
 
 
-def ref_run(case, flow):
+def ref_run(case, flow, blocks=False):
     """Block by block: what a fresh (or, between full blocks, reset) element yields for each consecutive
-    block of n values; the final partial block only with yield_on_remainder; nothing for an empty flow."""
+    block of n values; the final partial block only with yield_on_remainder; nothing for an empty flow.
+    blocks=True: (results, for every result the index of the block it belongs to)."""
     kind, k, mut, n = case["kind"], case["k"], case["mut"], case["bufsize"]
     reset, yor = bool(case["reset"]), case["yor"]
     pre, post = _code(case.get("pre")), _code(case.get("post"))
-    out, v = [], []
-    for i in range(0, len(flow), n):
+    out, v, idx = [], [], []
+    for b, i in enumerate(range(0, len(flow), n)):
         block = flow[i:i + n]
         full = len(block) == n
         if not full and not yor:
             break
+        before = len(out)
         if kind == "map":
             out.extend([x + 100] for x in block)
         else:
@@ -945,9 +1108,29 @@ def ref_run(case, flow):
             out.extend(r for j in range(kk) for r in post_ref(post, [j] + v))
             if mut:
                 v = v + [-1]
+        idx.extend([b] * (len(out) - before))
         if reset:
             v = []
-    return out
+    return (out, idx) if blocks else out
+
+
+def _oracle_streaming(case, res, flow):
+    """'run yields block by block ... with at most one block of buffered values or results': when a result of block b is
+    yielded, run has not taken more from the flow than the blocks 0..b and at most one further block (a rewrite may look
+    ahead, but what it holds back is bounded by a block) — not the whole flow, not the results of all blocks."""
+    if "rt" not in res:
+        return "the harness did not record when the results were yielded"
+    n, L = case["bufsize"], len(flow)
+    ref, idx = ref_run(case, flow, blocks=True)
+    if len(ref) != len(res["rt"]):
+        return None         # the results themselves differ: reported by the caller
+    for i, (b, taken) in enumerate(zip(idx, res["rt"])):
+        bound = min(L, (b + 2) * n)
+        if taken > bound:
+            return (f"run does not work block by block: result {i} (of block {b}, bufsize {n}) was yielded only after "
+                    f"{taken} of the {L} values of the flow had been read (values read at each result: {_Short(res['rt'])}); "
+                    f"blocks 0..{b} and one block of look-ahead are {bound} values")
+    return None
 
 
 def oracle(case, res):
@@ -973,9 +1156,12 @@ def oracle(case, res):
     if op in ("run", "runp"):
         ref = ref_run(case, flow)
         if res["r"] != ref:
-            return f"run yields {res['r']}, block-by-block reference {ref}"
+            return f"run yields {_Short(res['r'])}, block-by-block reference {_Short(ref)}"
         if L == 0 and res["r"]:
             return f"run on an empty flow yields {res['r']}"
+        late = _oracle_streaming(case, res, flow)
+        if late:
+            return late
         if "r2" in res:
             # whatever the first flow left in the element: the second flow is cut into its own consecutive blocks
             n2, k = case["n2"], case["k"]
@@ -996,7 +1182,8 @@ def oracle(case, res):
     if op == "ops":
         return _oracle_ops(case, res, flow)
     if op == "split":
-        types = ["sequence", "fill_request", "fill_compute"] if case.get("form") == "sib" else ["fill_request"]
+        types = (["sequence", "fill_request", "fill_compute"] if case.get("form") == "sib" else
+                 sibx_types(case) if case.get("form") == "sibx" else ["fill_request"])
         if res.get("types") != types:
             return f"Split classified the branches as {res.get('types')}"
         outs = res["r"]
@@ -1012,8 +1199,8 @@ def oracle(case, res):
         if not case["yor"]:
             ref = ref_run(case, flow)
             if outs != ref:
-                return (f"Split(bufsize={case['m']}) around FillRequest(bufsize={n}) yields {outs}, "
-                        f"run on the whole flow would yield {ref}")
+                return (f"Split(bufsize={case['m']}) around FillRequest(bufsize={n}) yields {_Short(outs)}, "
+                        f"run on the whole flow would yield {_Short(ref)}")
         if L == 0 and outs:
             return f"Split around FillRequest yields {outs} for an empty flow"
         if flow2 is not None and not case["yor"] and case.get("form") != "seq3":
@@ -1058,7 +1245,7 @@ def ref_history(case):
     out, v, cnt = [], [], 0
     waiting = False
     stop = case.get("stop")
-    if stop is not None and (case.get("buf") != "bo" or case.get("stores")):
+    if stop is not None and (_works_bi(case) or case.get("stores")):
         return None     # refused values waiting in _buffer_in / taken in before the refusal: no reference
 
     def emit():
@@ -1094,7 +1281,7 @@ def _oracle_opsx(case, res):
     if case.get("ev") == "request":
         return None         # the lazy reference adapter, not the code under test: only compared with the model
     n, yor = case["bufsize"], case["yor"]
-    ops, trace = case["ops"], res["t"]
+    ops, trace = case["ops"], _Short(res["t"])
     for o, (out, raised, cnt, lin, lout) in zip(ops, trace):
         if cnt > n:
             return f"_n_count = {cnt} exceeds bufsize {n} (trace {trace})"
@@ -1132,9 +1319,20 @@ def _accounted(case, outs, flow, closed, pending):
     return None
 
 
+class _Short(list):
+    """a trace for a message: long ones are shown by their first and last entries (the replay file has the case)"""
+
+    def __format__(self, spec):
+        if len(self) <= 40:
+            return format(list(self), spec)
+        return f"{list(self[:12])} ... ({len(self) - 24} more) ... {list(self[-12:])}"
+
+    __str__ = __repr__ = lambda self: format(self, "")
+
+
 def _oracle_ops(case, res, flow):
     n, k, yor = case["bufsize"], case["k"], case["yor"]
-    trace = res["t"]
+    trace = _Short(res["t"])
     ops = _ops_of(case)
     outs, pend, since = [], 0, 0
     for o, (out, cnt, lin, lout) in zip(ops, trace):
@@ -1158,10 +1356,12 @@ def _oracle_ops(case, res, flow):
     if not yor:
         ref = ref_run(case, flow)
         if outs != ref:
-            return (f"request() results {outs} for requests before fills {[j for j in range(len(flow)) if (case['mask'] >> j) & 1]}"
-                    f" + closing; block reference for the whole flow {ref}")
+            return (f"request() results {_Short(outs)} for requests before fills "
+                    f"{[j for j in range(len(flow)) if (case['mask'] >> j) & 1]} + closing; block reference for the whole flow "
+                    f"{_Short(ref)}")
         if res["run"] != outs:
-            return f"concatenated request() results {outs} differ from run on the whole flow {res['run']}"
+            return (f"concatenated request() results {_Short(outs)} differ from run on the whole flow "
+                    f"{_Short(res['run']) if isinstance(res['run'], list) else res['run']}")
     if "r2" in res and not case.get("kpar") and case["kind"] != "map":
         # the adapter that was driven by fill/request then runs a flow: that flow is cut into its own blocks
         n2 = case["n2"]
@@ -1213,17 +1413,94 @@ def _random_mask(rng, L, dens):
     return mask
 
 
+def _bufs(yor):
+    """the buffer flags __init__ accepts: exactly one of them, or — with yield_on_remainder — any combination"""
+    return ("bi", "bo", "none", "both") if yor else ("bi", "bo")
+
+
 def _long_cases(rng, count):
-    """flows longer than any constant a buffer might be given: many values between two requests"""
+    """flows longer than any constant a buffer might be given: many values between two requests; run on long flows"""
     for _ in range(count):
-        kind = rng.choice(("fc", "fr", "both"))
+        op = rng.choice(("ops", "split", "run"))
+        kind = rng.choice(("fc", "fr", "both") if op != "run" else ("run", "map", "fc", "fr", "both"))
+        if op == "split" and kind == "both":
+            kind = "fr"
         hr, reset = rng.choice(((True, True), (True, False)))
-        c = _base(kind, 1, False, hr, rng.randint(1, 4), rng.choice(("bi", "bo")), reset, rng.random() < 0.2)
+        yor = rng.random() < 0.2
+        c = _base(kind, 1, False, hr, rng.randint(1, 4), rng.choice(_bufs(yor)), reset, yor)
         L = rng.randint(20, 48)
-        if rng.random() < 0.5:
+        if op == "ops":
             c.update(op="ops", n=L, mask=_random_mask(rng, L, rng.choice((0.0, 0.03))))
-        else:
+        elif op == "split":
             c.update(op="split", form=rng.choice(("el", "tuple", "frseq")), m=rng.choice((18, 25, 40, 1000, None)), n=L)
+        else:
+            c.update(op="run", n=L)
+            if rng.random() < 0.3:
+                c["n2"] = rng.randint(0, 7)
+        yield c
+
+
+_VERY_LONG = (("ops", "fr", "bi", 0), ("split", "fr", "bi", None), ("run", "fc", "bi", 0), ("run", "run", "bo", 0),
+              ("ops", "fc", "bo", 0), ("split", "fc", "bo", 1500), ("run", "run", "bi", 0), ("run", "map", "yor", 0),
+              ("ops", "both", "bi", 0), ("split", "fr", "bi", 4096), ("run", "fr", "bo", 0), ("run", "both", "yor", 0),
+              ("ops", "fr", "bo", 0), ("split", "fr", "bo", None), ("ops", "fr", "yor", 0))
+
+
+def _very_long_cases(rng, count):
+    """flows of a thousand blocks and more (beyond Split's default bufsize, any plausible buffer limit, the recursion
+    limit of the interpreter): run, one request after all fills (or a few in between), Split with a huge block or None.
+    The element is reset after every block (results stay small).  The combinations of call form, element kind and
+    buffer mode are fixed (every seed has them); block size, length and request points are drawn."""
+    for i in range(count):
+        op, kind, buf, m = _VERY_LONG[i % len(_VERY_LONG)]
+        yor = buf == "yor"
+        n = rng.choice((1, 1, 2))
+        c = _base(kind, 1, False, True, n, rng.choice(_bufs(True)) if yor else buf, True, yor)
+        L = rng.randint(1050 * n, 1050 * n + 300)
+        if op == "ops":
+            c.update(op="ops", n=L, mask=_random_mask(rng, L, rng.choice((0.0, 0.0, 0.001))))
+        elif op == "split":
+            c.update(op="split", form=rng.choice(("el", "tuple")), m=m, n=L)
+        else:
+            c.update(op="run", n=L)
+        yield c
+
+
+_SIBS = ("src", "seq", "fc", "fr2:2", "fr2:3", "frstop", "fcstop")
+
+
+def _sib(rng, name):
+    return f"{name}:{rng.randint(0, 6)}" if name in ("frstop", "fcstop") else name
+
+
+def _sibx_cases(rng, count):
+    """Split with other branches around the fill/request branch under test (before and after it): Source, Sequence,
+    fill/compute, another FillRequest, branches that raise LenaStopFill after some values and are removed by Split while
+    the flow goes on; or an inner Split of fill/request branches driven by the outer one through Split.fill/request"""
+    for _ in range(count):
+        kind = rng.choice(("fr", "fc"))
+        k = rng.choice((1, 1, 2))
+        yor = rng.random() < 0.25
+        c = _base(kind, k, False, True, rng.randint(1, 5), rng.choice(_bufs(yor)), rng.random() < 0.5, yor)
+        L = rng.randint(0, 12)
+        c.update(op="split", form="sibx", m=rng.choice(list(range(1, 10)) + [1000, None]), n=L,
+                 cb=rng.random() < 0.6)
+        if rng.random() < 0.25:
+            pool = ("fr2:2", "fr2:3")
+            c["nest"] = True
+        else:
+            pool = _SIBS
+        before = [_sib(rng, rng.choice(pool)) for _ in range(rng.randint(0, 2))]
+        after = [_sib(rng, rng.choice(pool)) for _ in range(rng.randint(0, 2))]
+        if not before and not after:
+            before = [_sib(rng, rng.choice(pool))]
+        c.update(before=before, after=after)
+        if rng.random() < 0.3:
+            c["vals"] = [rng.randrange(len(POOL)) for _ in range(max(1, L + 8))]
+        if rng.random() < 0.2:
+            c["names"] = True
+        if rng.random() < 0.25 and not c.get("vals"):
+            c["kpar"] = True
         yield c
 
 
@@ -1244,7 +1521,7 @@ def _dimension_cases(rng, count):
         else:
             hr, reset = rng.choice(_reset_opts(kind))
         yor = rng.random() < 0.3
-        buf = rng.choice(("bi", "bo")) if not yor or op != "run" else rng.choice(("bi", "bo", "none", "both"))
+        buf = rng.choice(_bufs(yor))
         c = _base(kind, k, mut, hr, rng.randint(1, 5), buf, reset, yor)
         L = rng.randint(0, 12)
         c.update(op=op, n=L)
@@ -1315,8 +1592,42 @@ def gen_cases(ctx):
             for bi, bo in ((nb[1], nb[0]), (nb[2], None), (nb[3], nb[2]), (nb[0], nb[3])):
                 yield {"op": "init", "caps": list(caps), "bufsize": 3, "reset": reset, "bi": bi, "bo": bo, "yor": False}
     # --- long flows first (buffers larger than any constant in the code), then the other dimensions -----------
-    for c in _long_cases(rng, 500 if thorough else 250):
+    for c in _long_cases(rng, 600 if thorough else 300):
         yield c
+    for c in _very_long_cases(rng, 45 if thorough else 15):
+        yield c
+    # --- Split: other branches around the branch under test -----------------------------------------
+    for desc in ("src", "seq", "fc", "fr2:2", "frstop:0", "frstop:3", "fcstop:0", "fcstop:3"):
+        for where in ("before", "after"):
+            for n in (2, 3):
+                for buf in ("bi", "bo"):
+                    for m in (1, 2, 3, 5, None):
+                        for L in (0, 4, 7):
+                            c = _base("fr", 1, False, True, n, buf, True, False)
+                            c.update(op="split", form="sibx", m=m, n=L, cb=True, before=[], after=[])
+                            c[where] = [desc]
+                            yield c
+    for c in _sibx_cases(rng, 12000 if thorough else 2500):
+        yield c
+    # --- fill/request with yield_on_remainder and no buffer flag / both flags (not checked by __init__ then) -----
+    for L in range(0, 8 if thorough else 6):
+        for kind in KINDS_FILL:
+            for hr, reset in ((True, True), (True, False), (False, False)):
+                for n in range(1, 5 if thorough else 4):
+                    for buf in ("none", "both"):
+                        for mask in range(1 << L):
+                            c = _base(kind, 1, False, hr, n, buf, reset, True)
+                            c.update(op="ops", n=L, mask=mask)
+                            yield c
+    for kind in ("fr", "fc"):
+        for reset in (True, False):
+            for n in range(1, 5):
+                for buf in ("none", "both"):
+                    for m in list(range(1, 10)) + [1000, None]:
+                        for L in (range(0, 9) if thorough else (0, 3, 5, 7, 8)):
+                            c = _base(kind, 1, False, True, n, buf, reset, True)
+                            c.update(op="split", form="el", m=m, n=L)
+                            yield c
     for c in _dimension_cases(rng, 40000 if thorough else 9000):
         yield c
     # --- a Run element that does not read its whole block ------------------------------------------
@@ -1410,6 +1721,9 @@ def gen_cases(ctx):
                 ops.append(None if u < 0.85 else "r")
         return ops
 
+    # (with yield_on_remainder also without a buffer flag / with both)
+    xconfigs += [(kind, 1, reset, n, buf, True) for kind in ("fc", "fr") for reset in (True, False)
+                 for n in range(1, 4) for buf in ("none", "both")]
     hist = list(_histories(5 if thorough else 3))
     for cfg in xconfigs:
         if cfg[1] == 2 and not thorough:
@@ -1516,7 +1830,8 @@ def classify(case, res):
     if op == "init":
         return ["init:" + res.get("e", "ok")]
     labels = [f"{op}:{case['kind']}", f"{op}:{case['buf']}:reset={case['reset']}:yor={case['yor']}",
-              f"{op}:bufsize={case['bufsize']}", f"{op}:len={case['n']}"]
+              f"{op}:bufsize={case['bufsize']}",
+              f"{op}:len={case['n'] if case['n'] <= 12 else ('13..48' if case['n'] <= 48 else '>1000')}"]
     if op in ("opsx", "splitx", "runx"):
         labels.append(f"{op}:stop={'no' if case.get('stop') is None else 'yes'}")
         if op == "opsx":
@@ -1533,6 +1848,12 @@ def classify(case, res):
         labels.append(f"ops:requests={bin(case['mask']).count('1') + 1}")
         misaligned = any((case["mask"] >> j) & 1 and j % case["bufsize"] for j in range(case["n"]))
         labels.append("ops:" + ("misaligned" if misaligned else "aligned"))
+    if op == "split" and case.get("form") == "sibx":
+        labels.append("split:sibx:" + ("nested:" if case.get("nest") else "")
+                      + ",".join(d.partition(":")[0] for d in case.get("before", [])) + "|"
+                      + ",".join(d.partition(":")[0] for d in case.get("after", [])))
+    if case["n"] > 100:
+        labels.append(f"{op}:len>1000")
     if op == "split":
         labels.append(f"split:m={case['m']}:{case['form']}")
         if case["m"] is not None:
@@ -1581,6 +1902,20 @@ def shrink(case):
             if case["stop"] > 0:
                 yield dict(case, stop=case["stop"] - 1)
         return
+    if op == "split" and case.get("form") == "sibx":
+        for where in ("before", "after"):
+            for i in range(len(case.get(where, []))):
+                yield dict(case, **{where: case[where][:i] + case[where][i + 1:]})
+        if case.get("nest"):
+            yield dict(case, nest=False)
+        if not case.get("cb", True):
+            yield dict(case, cb=True)
+    if case["n"] > 16:
+        for nn in (case["n"] // 2, case["n"] - case["n"] // 8):
+            c = dict(case, n=nn)
+            if op == "ops":
+                c["mask"] = case["mask"] & ((1 << nn) - 1)
+            yield c
     if case["n"] > 0:
         c = dict(case, n=case["n"] - 1)
         if op == "ops":
@@ -1606,7 +1941,10 @@ LEVEL_TEXT = ("Lean 4 theorems about a hand-transcribed model of FillRequest (__
               "with value semantics, every block size, flow and history of fill/request calls (no bound). PROVED: run equals "
               "the block specification for fill/compute and fill/request elements and for every Run element, however little "
               "of its block it reads (since fix dbe92ef of /repo, notes/C16_defect_1; for the code before it the clause is "
-              "proved false on a witness); any request schedule closed by a "
+              "proved false on a witness); run works block by block also in time: its events are, block after "
+              "block, the values of the block being read and then its results being yielded — the results of block j appear "
+              "when exactly (j+1)n values have been taken from the flow, every value is read once (reading the whole flow "
+              "first gives the same results and is proved to violate this); any request schedule closed by a "
               "request yields what run yields, also as driven by Split with any block size (for elements that also have run: "
               "under the hypothesis that their run is fill-then-request; proved negation without it); every value is "
               "accounted exactly once (all flags); with yield_on_remainder the results are the blocks of each segment; right "
@@ -1618,11 +1956,13 @@ LEVEL_TEXT = ("Lean 4 theorems about a hand-transcribed model of FillRequest (__
               "a history. The model is tied to /repo by a correspondence check on generated cases (every subset of request "
               "points for flows up to 8 in thorough / 6 in quick, all flags, bufsize 1..5, Split block sizes, plus random "
               "combinations of flow values, state-dependent result counts, method-name keywords, non-int arguments, sibling "
-              "branches, re-use of adapter and Split objects, long flows) and a block-by-block Python reference oracle.")
+              "branches of every type around the branch (also stopping ones, also an inner Split), re-use of adapter and Split "
+              "objects, flows of up to 2400 values, the moment each result of run is yielded) and a block-by-block Python "
+              "reference oracle.")
 LEVEL_NOTE = ("Trusted: Lean kernel (+ propext, Classical.choice, Quot.sound); the hand transcription, validated only on the "
               "generated cases; iterator and generator semantics as transcribed; the JSON protocol. Not verified: real "
               "termination (watchdogs only); results with reference semantics (assumed away, notes/C16_judgement_1); "
-              "Split.run itself (C03). 22 property theorems + 17 supporting ones (AUX_THEOREMS: constructor contract, glue "
+              "Split.run itself (C03). 27 property theorems + 19 supporting ones (AUX_THEOREMS: constructor contract, glue "
               "between model functions, closed witnesses, the generator-keeping adapter variant).")
 TECHNIQUE = "Lean 4 proof over hand-written model + exhaustive-in-scope correspondence check"
 DESIGN_REF = "DESIGN.md section 3, C16"
